@@ -1143,7 +1143,7 @@ func driveRandom(lg *sim.Log, base *World, seed int64, runs, steps int) {
 		}
 		cyc := []int{steps / 4, steps * 2 / 3}
 		lad := []int{steps / 6, steps / 2, steps * 5 / 6}
-		call := []int{steps / 3, steps * 3 / 4}
+		call := []int{steps / 3, steps * 11 / 20, steps * 3 / 4}
 		mkt := []int{steps / 5, steps * 2 / 5, steps * 7 / 10}
 		frm := []int{steps * 11 / 20}
 		adv := []int{steps / 8, steps * 6 / 10}
